@@ -797,6 +797,8 @@ class Manager:
         # TODO: Refactor this method.
 
         value = None
+        handling = self._currently_handling
+        self._currently_handling = event
         try:
             value = next(task)
             if isinstance(value, CallValue):
@@ -884,6 +886,8 @@ class Manager:
                 event.waitingHandlers -= 1
                 if event.waitingHandlers == 0:
                     self._eventDone(event, err)
+        finally:
+            self._currently_handling = handling
 
     def tick(self, timeout=-1):
         """
